@@ -1347,6 +1347,7 @@ class XMLSchemaBase(XsdValidator, ElementPathMixin[Union[SchemaType, XsdElement]
         else:
             selector = resource.iter_depth(mode=4, ancestors=ancestors)
 
+        root_namespaces = dict(namespaces)
         elem: Optional[Element] = None
         for elem in selector:
             if elem is resource.root:
@@ -1392,6 +1393,14 @@ class XMLSchemaBase(XsdValidator, ElementPathMixin[Union[SchemaType, XsdElement]
                 else:
                     yield context.missing_element_error(validation, self, elem, path, schema_path)
                     return
+
+            if elem is not resource.root and ancestors:
+                # Set the namespace declarations in scope for the element
+                namespaces.clear()
+                namespaces.update(root_namespaces)
+                for e in ancestors[1:]:
+                    namespaces.update(resource.get_xmlns(e) or ())
+                namespaces.update(resource.get_xmlns(elem) or ())
 
             try:
                 xsd_element.raw_decode(elem, validation, context)
@@ -1617,6 +1626,7 @@ class XMLSchemaBase(XsdValidator, ElementPathMixin[Union[SchemaType, XsdElement]
             selector = resource.iter_depth(mode=3)
 
         yielded_errors = 0
+        root_namespaces = dict(namespaces)
 
         for elem in selector:
             xsd_element = schema.get_element(elem.tag, schema_path, namespaces)
@@ -1633,6 +1643,13 @@ class XMLSchemaBase(XsdValidator, ElementPathMixin[Union[SchemaType, XsdElement]
                 else:
                     yield context.missing_element_error(validation, self, elem, path, schema_path)
                     return
+
+            if ancestors:
+                # Set the namespace declarations in scope for the selected element
+                namespaces.clear()
+                namespaces.update(root_namespaces)
+                for e in ancestors[1:]:
+                    namespaces.update(resource.get_xmlns(e) or ())
 
             result = xsd_element.raw_decode(elem, validation, context)
 
